@@ -11,8 +11,9 @@
 //!           the final content of the directory are returned; /verif/pydec/strace_events.py turns
 //!           the lines one-to-one into events.
 //!   "sink"  write_writer / write_writer_light / csv::write_writer into a caller-supplied writer
-//!           that fails at call i, accepts at most m bytes per call, or returns Ok(0); every call
-//!           the sink received is logged.
+//!           that accepts a given number of bytes at each of its first calls and then accepts
+//!           everything / fails / returns Ok(0) / is interrupted once; every call it received is
+//!           logged.
 //! The driver never judges: TLC does (spec/Trace_SaveAtomic.tla).
 use serde_json::{json, Value};
 use std::collections::HashMap;
@@ -212,6 +213,7 @@ fn run_size(case: &Value) -> Vec<Value> {
 static VOLUME: Mutex<Option<HashMap<String, (usize, usize)>>> = Mutex::new(None);
 
 struct ChildRun {
+    elapsed_us: u64,
     lines: Vec<String>,
     status: String, // "ok" | "err" | "panic" | "killed" | "timeout" | "tool:<code>"
 }
@@ -257,6 +259,7 @@ fn run_child(dir: &Path, arg: &Value, inject: &[String], traced: bool, kill_afte
             }
         }
     };
+    let elapsed_us = t0.elapsed().as_micros() as u64;
     use std::os::unix::process::ExitStatusExt;
     let status = match status {
         None => "timeout".to_string(),
@@ -279,7 +282,7 @@ fn run_child(dir: &Path, arg: &Value, inject: &[String], traced: bool, kill_afte
         lines = t.lines().map(|x| x.to_string()).collect();
         let _ = std::fs::remove_file(&log);
     }
-    ChildRun { lines, status }
+    ChildRun { elapsed_us, lines, status }
 }
 
 fn run_path(case: &Value) -> Vec<Value> {
@@ -325,13 +328,17 @@ fn run_path(case: &Value) -> Vec<Value> {
 
     // payload volume of a fault-free save: the file size where the bytes are a function of the
     // workbook, else (password instances) the number of bytes a fault-free traced save writes
+    let mut ref_len = new_bytes.as_ref().map_or(0, |b| b.len());
     let volume = match &new_bytes {
         Some(b) => b.len(),
         None => {
             let key = format!("{}/{}", inst, vol);
             let known = VOLUME.lock().unwrap().get_or_insert_with(HashMap::new).get(&key).cloned();
             match known {
-                Some((v, _)) => v,
+                Some((v, fl)) => {
+                    ref_len = fl;
+                    v
+                }
                 None => {
                     let rdir = root.join("ref");
                     std::fs::create_dir_all(&rdir).unwrap();
@@ -365,6 +372,7 @@ fn run_path(case: &Value) -> Vec<Value> {
                     }
                     VOLUME.lock().unwrap().get_or_insert_with(HashMap::new).insert(key, (v, flen));
                     let _ = std::fs::remove_dir_all(&rdir);
+                    ref_len = flen;
                     v
                 }
             }
@@ -410,6 +418,8 @@ fn run_path(case: &Value) -> Vec<Value> {
                 "old"
             } else if Some(&bytes) == new_bytes.as_ref() {
                 "new"
+            } else if new_bytes.as_ref().map_or(false, |nb| nb.starts_with(&bytes)) {
+                "prefix" // a proper prefix of the reference bytes (possibly empty)
             } else {
                 if new_bytes.is_none() {
                     dest_hex = hex(&bytes);
@@ -429,9 +439,9 @@ fn run_path(case: &Value) -> Vec<Value> {
     };
     let out = json!({
         "a": "Raw", "case": id, "kind": "path", "inst": inst, "vol": vol, "existed": existed, "fault": fault,
-        "size": volume, "pkglen": pkg_len, "pkgfnv": pkg_fnv, "password": PASSWORD,
+        "size": volume, "reflen": ref_len, "pkglen": pkg_len, "pkgfnv": pkg_fnv, "password": PASSWORD,
         "dir": dir.to_str().unwrap(), "dest": dest.to_str().unwrap(), "tmp": tmp.to_str().unwrap(),
-        "status": r.status, "lines": r.lines,
+        "status": r.status, "elapsed_us": r.elapsed_us, "lines": r.lines,
         "final": {"names": names, "dest": dest_class, "destlen": dest_len, "tmp": tmp_class, "tmplen": tmp_len,
                   "desthex": dest_hex, "oldlen": old_bytes.len()},
     });
@@ -443,43 +453,42 @@ fn run_path(case: &Value) -> Vec<Value> {
 // failing sinks
 // ---------------------------------------------------------------------------------------------
 struct Sink {
-    fail_at: u64,  // the call with this 1-based index (and, if sticky, every later one) fails; 0 = never
-    sticky: bool,
-    mode: String,  // "err": Err(other) | "zero": Ok(0) | "intr": Err(Interrupted) once, not a failure
-    max: usize,    // at most this many bytes are accepted per call; 0 = no limit
-    calls: u64,
+    accepts: Vec<i64>, // call i (1-based, i <= len) accepts min(len, accepts[i-1]) bytes; -1 = all of them
+    after: String,     // later calls: "ok" accept everything | "err" Err(other) | "zero" Ok(0) |
+    //                    "intr" Err(Interrupted) once (not a failure: write_all retries), then everything
+    calls: usize,
     got: usize,
     log: Vec<Value>,
-    flushes: u64,
 }
 
 impl Write for Sink {
     fn write(&mut self, buf: &[u8]) -> io::Result<usize> {
         self.calls += 1;
-        let hit = self.fail_at != 0 && (self.calls == self.fail_at || (self.sticky && self.calls > self.fail_at));
-        if hit {
-            match self.mode.as_str() {
+        let i = self.calls;
+        if i > self.accepts.len() {
+            match self.after.as_str() {
                 "zero" => {
                     self.log.push(json!({"n": buf.len(), "m": 0, "res": "zero"}));
                     return Ok(0);
                 }
-                "intr" => {
+                "intr" if i == self.accepts.len() + 1 => {
                     self.log.push(json!({"n": buf.len(), "m": 0, "res": "intr"}));
                     return Err(io::Error::new(io::ErrorKind::Interrupted, "injected EINTR"));
                 }
-                _ => {
+                "err" => {
                     self.log.push(json!({"n": buf.len(), "m": 0, "res": "err"}));
                     return Err(io::Error::new(io::ErrorKind::Other, "injected sink failure"));
                 }
+                _ => {}
             }
         }
-        let m = if self.max == 0 { buf.len() } else { buf.len().min(self.max) };
+        let cap = if i <= self.accepts.len() { self.accepts[i - 1] } else { -1 };
+        let m = if cap < 0 { buf.len() } else { buf.len().min(cap as usize) };
         self.got += m;
-        self.log.push(json!({"n": buf.len(), "m": m, "res": "ok"}));
+        self.log.push(json!({"n": buf.len(), "m": m, "res": if m == 0 && !buf.is_empty() { "zero" } else { "ok" }}));
         Ok(m)
     }
     fn flush(&mut self) -> io::Result<()> {
-        self.flushes += 1;
         Ok(())
     }
 }
@@ -497,14 +506,11 @@ fn run_sink(case: &Value) -> Vec<Value> {
     let book = build_book(&inst, "new", vol);
     let size = reference_bytes(&inst, &book).expect("reference").len();
     let mut sink = Sink {
-        fail_at: case["fail_at"].as_u64().unwrap(),
-        sticky: b(case, "sticky"),
-        mode: s(case, "mode").to_string(),
-        max: u(case, "max") as usize,
+        accepts: case["accepts"].as_array().unwrap().iter().map(|x| x.as_i64().unwrap()).collect(),
+        after: s(case, "after").to_string(),
         calls: 0,
         got: 0,
         log: vec![],
-        flushes: 0,
     };
     let r = std::panic::catch_unwind(AssertUnwindSafe(|| match inst.as_str() {
         "xlsx" => xlsx::write_writer(&book, &mut sink).map_err(|e| format!("{:?}", e)),
@@ -517,8 +523,9 @@ fn run_sink(case: &Value) -> Vec<Value> {
         Ok(Err(e)) => ("err", e),
         Err(p) => ("panic", panic_msg(&p)),
     };
-    let mut evs = vec![json!({"a": "Begin", "case": id, "kind": "sink", "inst": inst, "size": size, "bufcap": 0,
-                              "existed": false, "fault": format!("fail_at={} sticky={} mode={} max={}", sink.fail_at, sink.sticky, sink.mode, sink.max)})];
+    let mut evs = vec![json!({"a": "Begin", "case": id, "kind": "sink", "inst": inst, "size": size,
+                              "existed": false, "tmp0": "absent", "traced": true,
+                              "fault": format!("writer accepts {:?} then {}", sink.accepts, sink.after)})];
     for w in &sink.log {
         evs.push(json!({"a": "SinkWrite", "n": w["n"], "m": w["m"], "res": w["res"]}));
     }
